@@ -804,20 +804,15 @@ theorem binArith_ok (c : Core) (frames : List Frame) (op : Opc) (h : OK c frames
   have h2 := h.pop.pop
   unfold binArith
   simp only
-  generalize hAB : (if (op == Opc.MOD) = true then (c.pop.1.pop.2, c.pop.2) else (coerceEnum c.pop.1.pop.2, coerceEnum c.pop.2)) = p
-  obtain ⟨A, B⟩ := p
-  simp only
-  have hAB' : SX c.pop.1.pop.1 frames [A, B] := by
+  have hAB' : SX c.pop.1.pop.1 frames [coerceEnum c.pop.1.pop.2, coerceEnum c.pop.2] := by
     apply h2.perm
     intro w hw
-    split at hAB
-    · cases hAB; exact Nat.le_refl _
-    · cases hAB
-      have e1 := coerceEnum_count c.pop.1.pop.2 w hw
-      have e2 := coerceEnum_count c.pop.2 w hw
-      simp only [List.count_cons, List.count_nil] at e1 e2 ⊢
-      omega
-  clear hAB
+    have e1 := coerceEnum_count c.pop.1.pop.2 w hw
+    have e2 := coerceEnum_count c.pop.2 w hw
+    simp only [List.count_cons, List.count_nil] at e1 e2 ⊢
+    omega
+  generalize coerceEnum c.pop.1.pop.2 = A at hAB' ⊢
+  generalize coerceEnum c.pop.2 = B at hAB' ⊢
   split
   · exact hAB'.drop.drop.pushScalar _ rfl
   · split
